@@ -48,11 +48,15 @@ NEVER == 99           \* a cookie that is never issued
 \* queue has room), then becomes free.  They only save the model checker from re-exploring the
 \* set-up of an object with a service; cookies are issued in order 1, 2, ...
 MsgEv(c, m) == [t |-> "msg", c |-> c, m |-> m]
+\* the scripted owner creates its service with the message form its version knows (CreateService2 is gated at 1.17)
+SvcMsg == IF V0 >= 17
+            THEN MsgEv(0, [k |-> "CreateService2", serial |-> 0, obj |-> 1, uuid |-> 201, val |-> 1, info |-> InfoRec(TRUE, 1, 0, "true")])
+            ELSE MsgEv(0, [k |-> "CreateService", serial |-> 0, obj |-> 1, uuid |-> 201, ver |-> 1])
 Script ==
   CASE ScriptSel = "svc" ->      \* connection 0 owns object 101 (cookie 1) with service 201 (cookie 2); connection 1 is a client
          << [t |-> "new", c |-> 0, ver |-> V0],
             MsgEv(0, [k |-> "CreateObject", serial |-> 0, uuid |-> 101]),
-            MsgEv(0, [k |-> "CreateService2", serial |-> 0, obj |-> 1, uuid |-> 201, val |-> 1, info |-> InfoRec(TRUE, 1, 0, "true")]),
+            SvcMsg,
             [t |-> "new", c |-> 1, ver |-> V1] >>
     [] ScriptSel = "chan" ->     \* connection 0 created a channel (cookie 1) with a claimed sender; connection 1 exists
          << [t |-> "new", c |-> 0, ver |-> V0],
@@ -65,7 +69,7 @@ Script ==
     [] ScriptSel = "pend" ->     \* as "svc", and connection 1 has a call pending at connection 0 (caller serial 0, broker serial = InitSerial)
          << [t |-> "new", c |-> 0, ver |-> V0],
             MsgEv(0, [k |-> "CreateObject", serial |-> 0, uuid |-> 101]),
-            MsgEv(0, [k |-> "CreateService2", serial |-> 0, obj |-> 1, uuid |-> 201, val |-> 1, info |-> InfoRec(TRUE, 1, 0, "true")]),
+            SvcMsg,
             [t |-> "new", c |-> 1, ver |-> V1],
             MsgEv(1, [k |-> "CallFunction", serial |-> 0, svc |-> 2, fn |-> 0, hv |-> FALSE, ver |-> 0, val |-> 1]) >>
     [] ScriptSel = "lstf" ->     \* connection 1 owns object 101 (cookie 1); connection 0 owns a listener (cookie 2) with an any-object filter
